@@ -7,7 +7,7 @@ SPEC = dict(
     level='fault_enumeration',
     rule='case = one fault plan for the send() calls of Server clients on socket pairs (outcomes full / partial(1) / partial(k) / partial(n-1) / EAGAIN / hard error) '
          'combined with a seeded script of writes (sizes 1..300000, issued from outside the loop, from onRead or from onWrite), suspend/resume and peer traffic. '
-         'plan-exh: every outcome sequence up to length N (quick 3, thorough 5) over the 5 non-error outcomes x 3 size classes; plan-err: every sequence up to N-1 followed by a hard error; '
+         'plan-exh: every outcome sequence up to length N (quick 4, thorough 6) over the 5 non-error outcomes x 3 size classes; plan-err: every sequence up to N-1 followed by a hard error; '
          'rand: plans of length 6..40, 1..3 clients, cross suspend while the read event is selected; kernel: no scripted faults, minimal SO_SNDBUF and a slow reader. '
          'distinct = hash of the observed (send length, return) sequence and the operation sequence; non-trivial = at least one send took less than offered (partial or EAGAIN) '
          '(rand/kernel: and the backlog drained at least once). After every send: offered bytes == next accepted bytes; after every write and at every idle point: '
@@ -19,15 +19,15 @@ SPEC = dict(
     technique='libc interposition (send/recv/epoll_wait/clock_gettime), virtual time, reference byte-stream model, independent poll() oracle',
     exhaustive={Q: False, T: False},   # the outcome-sequence x size-class sub-space (plan-exh, plan-err) is enumerated completely; sizes, venues and scripts are sampled
     jobs=[
-        job('plan-exh', 'h_server_write', 'plan-exh', cases=-1, scale={Q: 3, T: 5}, procs=16, sources=SRC),
-        job('plan-err', 'h_server_write', 'plan-err', cases=-1, scale={Q: 3, T: 5}, procs=16, sources=SRC),
-        job('rand', 'h_server_write', 'rand', cases={Q: 800, T: 14000}, procs=16, sources=SRC),
-        job('kernel', 'h_server_write', 'kernel', cases={Q: 160, T: 2400}, procs=16, sources=SRC),
+        job('plan-exh', 'h_server_write', 'plan-exh', cases=-1, scale={Q: 4, T: 6}, procs=16, sources=SRC),
+        job('plan-err', 'h_server_write', 'plan-err', cases=-1, scale={Q: 4, T: 6}, procs=16, sources=SRC),
+        job('rand', 'h_server_write', 'rand', cases={Q: 3000, T: 80000}, procs=16, sources=SRC),
+        job('kernel', 'h_server_write', 'kernel', cases={Q: 500, T: 12000}, procs=16, sources=SRC),
     ],
-    floors={Q: dict(cases=1400, plans_fully_consumed=558, send_calls=5000, send_partial=1000, send_eagain=500, send_error=90, backlog_drained=500, onWrite=500, writes_append_path=100,
-                    postponed_checks=1000, backlog_size_checks=3000, peer_bytes_verified=10000000, independent_poll_checks=1000, streams_verified_end_to_end=1400,
-                    suspend_while_event_selected=5, resume_with_pending_data=5, **{'set:send_outcomes': 12, 'set:write_venues': 5}),
-            T: dict(cases=30000, plans_fully_consumed=14058, send_calls=100000, send_partial=20000, send_eagain=10000, send_error=2000, backlog_drained=10000, onWrite=10000, writes_append_path=2000,
-                    postponed_checks=20000, backlog_size_checks=60000, peer_bytes_verified=200000000, independent_poll_checks=20000, streams_verified_end_to_end=30000,
-                    suspend_while_event_selected=100, resume_with_pending_data=100, **{'set:send_outcomes': 12, 'set:write_venues': 5})},
+    floors={Q: dict(cases=6000, plans_fully_consumed=2808, send_calls=90000, send_partial=60000, send_eagain=6000, send_error=700, backlog_drained=9000, onWrite=9000, writes_append_path=2500,
+                    postponed_checks=18000, backlog_size_checks=200000, peer_bytes_verified=1200000000, independent_poll_checks=150000, streams_verified_end_to_end=6000,
+                    suspend_while_event_selected=150, resume_with_pending_data=1500, **{'set:send_outcomes': 12, 'set:write_venues': 5}),
+            T: dict(cases=160000, plans_fully_consumed=70308, send_calls=2300000, send_partial=1400000, send_eagain=190000, send_error=19000, backlog_drained=250000, onWrite=250000, writes_append_path=70000,
+                    postponed_checks=490000, backlog_size_checks=5500000, peer_bytes_verified=36000000000, independent_poll_checks=3600000, streams_verified_end_to_end=160000,
+                    suspend_while_event_selected=6000, resume_with_pending_data=60000, **{'set:send_outcomes': 12, 'set:write_venues': 5})},
 )
